@@ -41,6 +41,8 @@ func C04(c *core.Ctx) {
 	c04CleanCopies(c)
 	c04ReadBeforeNormalised(c)
 	c04CalcWritesNormaliserInputs(c)
+	c04OwnCountryBlanked(c)
+	c04RequiresDepth(c)
 	c04ScenarioNotes(c)
 	c04ReadOnly(c)
 	_ = p
